@@ -421,3 +421,34 @@ func LoadReplay(path string) (*ReplayFile, error) {
 	}
 	return &ReplayFile{Scenario: f.Replay.Scenario, Choices: f.Replay.Choices}, nil
 }
+
+// FreeRun executes the scenario n times without the scheduler (plain goroutines, real parallelism inside the
+// bubble). It exists for the -race pass: verdicts of the bodies are ignored, only the race detector's output
+// matters. Returns the number of runs that ended in a panic other than a goroutine leak.
+func FreeRun(t *testing.T, sc *Scenario, n int, deadline time.Time) (runs int, panics int) {
+	for i := 0; i < n && time.Now().Before(deadline); i++ {
+		x := &Exec{T: t}
+		func() {
+			defer func() {
+				if r := recover(); r != nil {
+					msg := fmt.Sprint(r)
+					if !strings.Contains(msg, "blocked goroutines remain") && !strings.Contains(msg, "deadlock") {
+						panics++
+					}
+				}
+			}()
+			synctest.Test(t, func(t *testing.T) {
+				opt := sc.Opt
+				opt.Free = true
+				s := New(opt)
+				x.S = s
+				sc.Body(x)
+			})
+		}()
+		runs++
+	}
+	return
+}
+
+// FreeMode reports whether this process is the free-running race pass.
+func FreeMode() bool { return os.Getenv("VERIF_FREE") != "" }
